@@ -34,7 +34,7 @@ func (e *c20Exporter) Export(_ context.Context, rs []Record) error {
 func (e *c20Exporter) Shutdown(context.Context) error   { return nil }
 func (e *c20Exporter) ForceFlush(context.Context) error { return nil }
 
-const c20SafetyNet = 3 * time.Second // real-time safety net only; hitting it is a cap, never a verdict
+const c20SafetyNet = 10 * time.Second // real-time safety net only; hitting it is a cap, never a verdict
 
 // "The default value is also used when the provided value is less than one." (every
 // BatchProcessor option): zero and negative are out of range for options and variables alike.
